@@ -1,5 +1,10 @@
 package main
 
+import (
+	"go/types"
+	"strings"
+)
+
 // lemmaObligations: lemmas tagged (by name prefix "<ID>_") with a property are proved from the axioms.
 func (e *Engine) lemmaObligations(id string) []*Obligation {
 	var res []*Obligation
@@ -16,3 +21,80 @@ func (e *Engine) lemmaObligations(id string) []*Obligation {
 func (e *Engine) structuralObligations(id string, reps []*FuncReport) []*Obligation { return nil }
 
 func (e *Engine) tryReplay(id string, o *Obligation, replayPath string) bool { return false }
+
+func (e *Engine) debugModset(name string) {
+	fn := e.funcs[name]
+	if fn == nil {
+		println("no such function")
+		return
+	}
+	ms := e.modset(fn, nil)
+	println("all:", ms.all, "interior:", ms.interior)
+	for h := range ms.heaps {
+		println("  ", h)
+	}
+}
+
+// heapSortFromID derives the SMT sort of a heap from its id, so that heaps named in contracts
+// (modifies / unchanged / preserved) can be declared before the code touches them.
+func (e *Engine) heapSortFromID(id string) string {
+	if s := e.heapSorts[id]; s != "" {
+		return s
+	}
+	var pkg *types.Package
+	for _, p := range e.mainPkg {
+		if p.Pkg.Name() == "p9p" {
+			pkg = p.Pkg
+		}
+	}
+	resolve := func(ts string) (string, bool) {
+		for _, p := range e.mainPkg {
+			if t, err := e.resolveType(p.Pkg, ts); err == nil {
+				return e.sortOf(t), true
+			}
+		}
+		_ = pkg
+		return "", false
+	}
+	so := ""
+	switch {
+	case id == allocHeap:
+		so = "(Array Int Bool)"
+	case id == "gh:$iofail", id == lockCount:
+		so = "Int"
+	case id == "gh:$smhas":
+		so = "(Array Int (Array Iface Bool))"
+	case id == "gh:$smval":
+		so = "(Array Int (Array Iface Iface))"
+	case strings.HasPrefix(id, "gh:"):
+		if g, ok := e.ghosts[id[3:]]; ok {
+			so = "(Array Int " + e.sortOf(g.Ty) + ")"
+		}
+	case strings.HasPrefix(id, "E:"):
+		if s, ok := resolve(id[2:]); ok {
+			so = "(Array Int (Array Int " + s + "))"
+		}
+	case strings.HasPrefix(id, "P:"):
+		if s, ok := resolve(id[2:]); ok {
+			so = "(Array Int " + s + ")"
+		}
+	case strings.HasPrefix(id, "F:"):
+		// F:pkg.Struct.field
+		rest := id[2:]
+		i := strings.LastIndex(rest, ".")
+		if i > 0 {
+			for _, p := range e.mainPkg {
+				if t, err := e.resolveType(p.Pkg, rest[:i]); err == nil && isStruct(t) {
+					si := e.structInfo(t)
+					if k := si.fieldIndex(rest[i+1:]); k >= 0 && fieldHeapID(si, k) == id {
+						so = "(Array Int " + si.FSort[k] + ")"
+					}
+				}
+			}
+		}
+	}
+	if so != "" {
+		e.heapSorts[id] = so
+	}
+	return so
+}
